@@ -227,6 +227,8 @@ func firstWords(s string) string {
 		return "slot-collision"
 	case strings.Contains(s, "handed out for two type descriptors"):
 		return "decoder-shared"
+	case strings.Contains(s, "outside the address window"):
+		return "slot-outside-window"
 	}
 	return "other"
 }
